@@ -10,7 +10,7 @@ open Hex Hex.X Hex.Xcmp Hex.IAm Hex.Asm
 
 def StmtLSpec (G : GCtx) (fuel : Nat) : Prop :=
   ∀ pi ∈ G.procs, ∀ sp dep hi, G.lo ≤ sp → sp + G.S pi + pi.po + pi.p.formals.length ≤ G.spv + 1 → G.spv ≤ sp + dep * G.smax →
-    ∀ ss σ, okS5L G.pk G.pnames G.xc.impure G.rho ss = true →
+    ∀ ss σ, okS5L G.pk G.pnames G.xc.impure G.rho (G.isLoc pi) ss = true →
       ExecSL (KOf G pi sp dep hi) (G.iEpi pi) (optStmts (annotSL G.rho ss)) σ (X.execSeq fuel G.xc ss σ)
 
 theorem callSpec_zero (G : GCtx) : CallSpec G 0 := by
@@ -109,12 +109,40 @@ theorem all_correct {G : GCtx} (ok : G.OK) : ∀ fuel, StmtSpec G fuel ∧ StmtL
           · exact execS_syscall_phase (KOf G pi sp dep hi) _ wf (F + 1) id args σ hok.1
               (fun f hf => sysPhase_5 ok hpi sp dep hi hlo hspv hstack (F + 1) hcsF1 args hone f (by omega))
         | assignSub n i e =>
-          simp only [okS5, Bool.and_eq_true] at hok
+          simp only [okS5, Bool.and_eq_true, Bool.or_eq_true] at hok
           have : optStmt (annotS G.rho (.assignSub n i e))
               = .assignSub n (optExpr (annotate G.rho i)) (optExpr (annotate G.rho e)) := by
             simp [annotS, optStmt]
           rw [this]
-          exact execS_assignSub (KOf G pi sp dep hi) _ wf _ n i e σ hok.1 hok.2
+          have hC : ∀ c, cond5 G.pk G.pnames G.xc.impure G.rho c = true → CondOK (KOf G pi sp dep hi) F c :=
+            fun c hc => condOK_5 ok hpi sp dep hi hlo hspv hstack F hcsF c hc
+          have hps : ∀ g, G.pnames.contains g = true → ∃ p, G.xc.genv.lookup g = some (.proc p) :=
+            fun g hg => ok.pnames_mem g (by simpa using hg)
+          have hpp5 : ∀ c, (pureE c = true ∨ (G.pk = true ∧ ppE G.pnames G.xc.impure c = true)) →
+              cond5 G.pk G.pnames G.xc.impure G.rho c = true ∧
+              ∀ (st : X.St) (mem : Mem) (cd : Word) (s : X.St), Rep (KOf G pi sp dep hi) st mem → X.eval F G.xc c st ≠ .exit cd s := by
+            intro c hc
+            refine ⟨by simp only [cond5, Bool.or_eq_true, Bool.and_eq_true]; exact Or.inl hc, ?_⟩
+            rcases hc with hp | ⟨hpk, hpp⟩
+            · exact fun st _ cd s _ => eval_pure_no_exit G.xc F c st cd s hp
+            · exact fun st _ cd s hr => eval_pp_noexit G.xc G.pnames hps (ok.pure_ok hpk) F c st cd s hpp (noLoc_of_rep hr)
+          have hip5 : ∀ c, ipE5 G.pk G.pnames G.xc.impure G.rho c = true → cond5 G.pk G.pnames G.xc.impure G.rho c = true :=
+            fun c hc => by simp only [cond5, Bool.or_eq_true, Bool.and_eq_true]; exact Or.inr hc
+          have hcl5 : ∀ c, isConstL G.rho c = true → cond5 G.pk G.pnames G.xc.impure G.rho c = true ∧
+              ∀ (st : X.St) (mem : Mem) (cd : Word) (s : X.St), Rep (KOf G pi sp dep hi) st mem → X.eval F G.xc c st ≠ .exit cd s :=
+            fun c hc => hpp5 c (Or.inl (constL_pure G.rho c hc))
+          rcases hok with (⟨h1, h2⟩ | ⟨h1, h2⟩) | ⟨⟨h1, h2⟩, h3⟩
+          · exact execS_assignSubG (KOf G pi sp dep hi) _ wf F n i e σ (hC i (hpp5 i h1).1) (hC e (hpp5 e h2).1)
+              (fun st mem cd s hr hx => absurd hx ((hpp5 e h2).2 st mem cd s hr))
+          · exact execS_assignSubG (KOf G pi sp dep hi) _ wf F n i e σ (hC i (hip5 i h1)) (hC e (hcl5 e h2).1)
+              (fun st mem cd s hr hx => absurd hx ((hcl5 e h2).2 st mem cd s hr))
+          · refine execS_assignSubG (KOf G pi sp dep hi) _ wf F n i e σ (hC i (hcl5 i h1).1) (hC e (hip5 e h2)) ?_
+            intro st mem cd s _ _
+            unfold GCtx.isLoc at h3
+            obtain ⟨ad0, had0⟩ := Option.isSome_iff_exists.mp h3
+            rcases G.locOf_cases pi G.lo n ad0 had0 with ⟨_, _, _, hall⟩ | ⟨_, c, _, _, _, _, hall⟩
+            · exact ⟨ad0, hall sp⟩
+            · exact ⟨sp + c, hall sp⟩
         | call g args =>
           simp only [okS5, sysArgs5, Bool.and_eq_true, List.all_eq_true, Bool.or_eq_true, List.contains_iff_mem] at hok
           rcases hok with ⟨hps, hargs⟩ | ⟨hvs, hargs⟩
